@@ -93,7 +93,7 @@ class C15(Prop):
             except Exception as x:  # noqa: BLE001
                 e["outcome"] = "error"
                 e["exc"] = type(x).__name__
-                e["msg"] = t(str(x))[:400]
+                e["msg"] = t(str(x).lower())[:400]          # naming is naming, in whatever case
             evs.append(e)
         for w in (0, 1):
             e = {"ev": "Swing", "swing": w, "outcome": "ok", "exc": "", "cmd": [], "lenhex": []}
